@@ -28,3 +28,34 @@ def grammar():
 
 def ff(p):
     return float(len(repr(p)))
+
+
+L.__gengy_field_names__ = ("v",)
+N.__gengy_field_names__ = ("l", "r")
+
+_BUILT = None
+
+
+def built():
+    """(Spec, Built) of this grammar by the harness's own reflection."""
+    global _BUILT
+    if _BUILT is None:
+        import gram
+        _BUILT = gram.reflect([L, N], E)
+    return _BUILT
+
+
+def ff_report(p):
+    """Fitness function that reports what it was handed: appends the canonical form of its argument
+    to the file named by VERIF_FF_LOG (O_APPEND: survives ParallelEvaluator's process boundary)."""
+    import os
+    import gram
+    from core import sx
+    _, b = built()
+    line = sx(gram.canon(p, b))
+    fd = os.open(os.environ["VERIF_FF_LOG"], os.O_WRONLY | os.O_APPEND | os.O_CREAT)
+    try:
+        os.write(fd, (line + "\n").encode())
+    finally:
+        os.close(fd)
+    return float(len(line))
